@@ -22,6 +22,8 @@ func init() {
 }
 
 func runC01(c *core.Ctx) {
+	c.Rule("PARSECOV", "no clause the grammar accepts is silently ignored by the parser")
+	checkParserCoverage(c, "PARSECOV")
 	ids := typeIDs(c.Prog)
 	c.Rule("ABS3", "Filter forwards exactly the records whose predicate is Boolean TRUE")
 	c.Rule("ABS4", "ORDER BY comparators: direction multipliers, value tie-break, irreflexive")
